@@ -49,6 +49,22 @@ def gen_cases(rng, tier):
                 if ep == "parity" and a[0] in ("str", "none"):
                     continue          # outcomes are numbers          # unbounded / deep recursion: valid but slow, covered by C07
                 cases.append({"kind": ep, "arg": a, "bt": bt})
+        # the same decorated function called first with one limit and then with an equal-valued limit of another
+        # type (2 then 2.0, 1 then Fraction(1), ...): each call is validated on its own
+        def _val(a):
+            if a[0] in ("int", "npint"):
+                return Fraction(a[1])
+            if a[0] == "bool":
+                return Fraction(int(a[1]))
+            if a[0] in ("float", "frac", "npfloat"):
+                return Fraction(a[1], a[2])
+            return None
+        g = [a for a in grammar() if _val(a) is not None and -3 <= _val(a) <= 3]
+        for warm in g:
+            for a in g:
+                if a != warm and _val(a) == _val(warm) and not (a[0] in ("int", "npint", "bool") and _val(a) in (-1, 5)) \
+                        and not (warm[0] in ("int", "npint", "bool") and _val(warm) in (-1, 5)):
+                    cases.append({"kind": "limit_reused", "warm": warm, "arg": a, "bt": bt})
         for lo, hi in [(0, 0), (1, 2), (2, 1), (-1, -2), (Fraction(1, 2), Fraction(1, 3))]:
             cases.append({"kind": "within", "lo": [Fraction(lo).numerator, Fraction(lo).denominator],
                           "hi": [Fraction(hi).numerator, Fraction(hi).denominator], "bt": bt})
@@ -132,6 +148,18 @@ def impl_run(case):
         elif k == "limit":
             res = explode(H(2), limit=py_arg(case["arg"]))
             out = {"ok": 0, "total": res.total}
+        elif k == "limit_reused":
+            from dyce.evaluation import expandable
+
+            @expandable
+            def reused(r):
+                return reused(r.h) + r.outcome if r.outcome == 2 else r.outcome
+            try:
+                reused(H(2), limit=py_arg(case["warm"]))
+            except Exception:  # noqa - only the second call is observed
+                pass
+            res = reused(H(2), limit=py_arg(case["arg"]))
+            out = {"ok": 0, "total": res.total}
         elif k == "parity":
             res = H({py_arg(case["arg"]): 1}).is_even()
             out = {"ok": bool(list(res)[0])}
@@ -209,7 +237,7 @@ def coq_check(case, r):
     if k.startswith("index"):
         exp = f"(Err {_cexc(r)})" if "exc" in r else f"(Ok {cnat(r['ok'])})"
         return f"chk_guard_nat (index_guard {bt} 3 {carg(case['arg'])}) {exp}"
-    if k == "limit":
+    if k in ("limit", "limit_reused"):
         return f"chk_limit_guard {bt} {carg(case['arg'])} {'false' if 'exc' in r else 'true'} {_cexc(r) or 'ValueError'}"
     if k == "parity":
         exp = f"(Err {_cexc(r)})" if "exc" in r else f"(Ok {'true' if r['ok'] else 'false'})"
@@ -256,7 +284,7 @@ def oracle(case):
             return {"exc": ["TypeCheck", "TypeError"] if bt else ["TypeError"]}
         v = _ival(a)
         return {"ok": v % 3} if -3 <= v < 3 else {"exc": ["IndexError"]}
-    if k == "limit":
+    if k in ("limit", "limit_reused"):
         a = case["arg"]
         if a[0] == "none":
             return {"ok": 0}
